@@ -210,10 +210,7 @@ class AsyncTCPMySensorsProtocol(BaseMySensorsProtocol, asyncio.Protocol):
         if self.gateway.cancel_check_conn:
             self.gateway.cancel_check_conn()
             self.gateway.cancel_check_conn = None
-        if exc:
-            _LOGGER.error(exc)
-            self.conn_lost_callback()
-        self.transport = None
+        self._connection_lost(exc)
 
 
 class TCPTransport(serial.threaded.ReaderThread):
